@@ -42,10 +42,12 @@ _OPS = [
      lambda P, f: f.sliceDimensions(**{first_dim(f): [0], last_dim(f): [1]})),
     ('slice(first=0,last=[0,1])', lambda f: len(f.dimensions) >= 2 and dl(f, last_dim(f)) >= 2,
      lambda P, f: f.sliceDimensions(**{first_dim(f): 0, last_dim(f): [0, 1]})),
-    # index arrays that are not 1-D (documented: "if the arrays are not 1D, newdims must have ndim names"), and a 0-d numpy index
-    ('slice(first=2-D idx,last=2-D idx,newdims=J,I)', lambda f: len(f.dimensions) >= 2 and 'J' not in f.dimensions and 'I' not in f.dimensions,
+    # index arrays that are not 1-D (documented: "if the arrays are not 1D, newdims must have ndim names"), and a 0-d numpy index;
+    # applied to files that have not been through a zipped selection before (a POINTS dimension next to N-D index arrays is a corner of
+    # the library this catalogue does not claim to be in the documented domain)
+    ('slice(first=2-D idx,last=2-D idx,newdims=J,I)', lambda f: len(f.dimensions) >= 2 and 'J' not in f.dimensions and 'I' not in f.dimensions and 'POINTS' not in f.dimensions,
      lambda P, f: f.sliceDimensions(newdims=('J', 'I'), **{first_dim(f): np.zeros((2, 3), 'i'), last_dim(f): np.array([[0, dl(f, last_dim(f)) - 1, 0]] * 2)})),
-    ('slice(last=2-D idx,newdims=J,I)', lambda f: 'J' not in f.dimensions and 'I' not in f.dimensions,
+    ('slice(last=2-D idx,newdims=J,I)', lambda f: 'J' not in f.dimensions and 'I' not in f.dimensions and 'POINTS' not in f.dimensions,
      lambda P, f: f.sliceDimensions(newdims=('J', 'I'), **{last_dim(f): np.array([[0, dl(f, last_dim(f)) - 1], [0, 0]])})),
     ('slice(last=0-d numpy index)', lambda f: True, lambda P, f: f.sliceDimensions(**{last_dim(f): np.array(0)})),
     ('apply(last=mean)', lambda f: True, lambda P, f: f.applyAlongDimensions(**{last_dim(f): 'mean'})),
